@@ -1,2 +1,33 @@
-(* C16 — stub: no theorems yet *)
-From Zap Require Import Base.Wire C16.Model C16.Proofs.
+(* C16 — console encoder lines have the documented shape with a valid JSON context. Statements only. *)
+From Coq Require Import List ZArith Bool.
+From Coq.Strings Require Import Byte.
+Import ListNotations.
+From Zap Require Import Base.Wire Enc.Bytes Enc.Fields Enc.JsonEnc Enc.JsonParse Enc.WireEnc Enc.JsonAst Enc.Wf Enc.Console
+  Enc.Parse3 Enc.Parse4 Enc.ConsoleProof C16.Model C16.Proofs.
+
+(* The console encoder (columns collected in a slice encoder, "separator only if the line is
+   non-empty", context rendered by a spaced JSON encoder clone with namespaces closed) produces
+   exactly: the present columns in the order time, level, name, caller, function joined by the
+   separator; the message if its key is set; if any field member exists, the separator and ONE JSON
+   object holding the context and call-site fields; the stack on the following lines; the line
+   ending - for every configuration (2^7 key patterns, any separator, nil/no-op/built-in
+   sub-encoders), With-chain, entry and field tree. *)
+Theorem C16_shape : forall c ctxs ent fs, forallb wf_flds ctxs = true -> wf_flds fs = true ->
+  console_encode c (with_chain c true ctxs) ent fs = console_spec c ctxs ent fs.
+Proof. exact console_shape. Qed.
+Print Assumptions C16_shape.
+
+(* the context object is valid JSON and decodes to the same members, in the same order, as the compact
+   form the JSON encoder emits for the same fields *)
+Theorem C16_ctx_same : forall v, tpre v -> parse (pv true v) = Some (jv_of v) /\ parse (pv false v) = Some (jv_of v).
+Proof. exact context_same. Qed.
+Print Assumptions C16_ctx_same.
+Theorem C16_ctx_members : forall c, q_layout_escaped c = true -> forall ctxs fs, owf_ctxs ctxs -> owf_flds fs ->
+  tpre (TObj (close (ev_flds c fs (ev_with_chain c ctxs)))).
+Proof. exact ctx_members. Qed.
+Print Assumptions C16_ctx_members.
+
+Theorem C16_wire : forall i, wf i = true -> owf_ctxs (ec_ctxs (dec_case i)) -> owf_flds (ec_fs (dec_case i)) ->
+  spec i (model i) = true.
+Proof. exact wire_thm. Qed.
+Print Assumptions C16_wire.
